@@ -411,8 +411,9 @@ Definition attr_ranges (u : uctx) (v : aval) : res (option range_iter) :=
       Ok (Some (RiList bare {| s_inp := inp; s_base := u_low_pc u |}))
   end.
 
-(* Dwarf::die_ranges: the `for attr in entry.attrs()` loop, state (low_pc, high_pc, size) *)
-Fixpoint die_ranges_loop (dbg : bool) (u : uctx) (attrs : list (aname * aval))
+(* Dwarf::die_ranges: the `for attr in entry.attrs()` loop, state (low_pc, high_pc, size);
+   `begin.checked_add(size).ok_or(Error::AddressOverflow)?` since /repo 3fe3498 *)
+Fixpoint die_ranges_loop (u : uctx) (attrs : list (aname * aval))
          (low high size : option N) : res range_iter :=
   match attrs with
   | [] =>
@@ -420,7 +421,7 @@ Fixpoint die_ranges_loop (dbg : bool) (u : uctx) (attrs : list (aname * aval))
       | None => Ok (RiSingle None)
       | Some b =>
           match size with
-          | Some n => let* e := chk_add 64 dbg b n in Ok (RiSingle (Some (b, e)))   (* `begin + size` *)
+          | Some n => if b + n <? two64 then Ok (RiSingle (Some (b, b + n))) else Err EAddressOverflow
           | None => match high with
                     | Some e => Ok (RiSingle (Some (b, e)))
                     | None => Ok (RiSingle None)
@@ -430,27 +431,27 @@ Fixpoint die_ranges_loop (dbg : bool) (u : uctx) (attrs : list (aname * aval))
   | (AtLowPc, v) :: rest =>
       let* o := attr_address u v in
       match o with
-      | Some a => die_ranges_loop dbg u rest (Some a) high size
+      | Some a => die_ranges_loop u rest (Some a) high size
       | None => Err EUnsupportedAttributeForm
       end
-  | (AtHighPc, AvUdata n) :: rest => die_ranges_loop dbg u rest low high (Some n)
+  | (AtHighPc, AvUdata n) :: rest => die_ranges_loop u rest low high (Some n)
   | (AtHighPc, v) :: rest =>
       let* o := attr_address u v in
       match o with
-      | Some a => die_ranges_loop dbg u rest low (Some a) size
+      | Some a => die_ranges_loop u rest low (Some a) size
       | None => Err EUnsupportedAttributeForm
       end
   | (AtRanges, v) :: rest =>
       let* o := attr_ranges u v in
       match o with
       | Some it => Ok it
-      | None => die_ranges_loop dbg u rest low high size
+      | None => die_ranges_loop u rest low high size
       end
-  | (AtOther, _) :: rest => die_ranges_loop dbg u rest low high size
+  | (AtOther, _) :: rest => die_ranges_loop u rest low high size
   end.
 
-Definition die_ranges (dbg : bool) (u : uctx) (attrs : list (aname * aval)) : res range_iter :=
-  die_ranges_loop dbg u attrs None None None.
+Definition die_ranges (u : uctx) (attrs : list (aname * aval)) : res range_iter :=
+  die_ranges_loop u attrs None None None.
 
 (* RangeIter::next drained *)
 Definition range_iter_drain (dbg : bool) (u : uctx) (it : range_iter) : res (list (ev (N * N))) :=
@@ -461,4 +462,4 @@ Definition range_iter_drain (dbg : bool) (u : uctx) (it : range_iter) : res (lis
   end.
 
 Definition die_ranges_all (dbg : bool) (u : uctx) (attrs : list (aname * aval)) : res (list (ev (N * N))) :=
-  let* it := die_ranges dbg u attrs in range_iter_drain dbg u it.
+  let* it := die_ranges u attrs in range_iter_drain dbg u it.
